@@ -183,6 +183,21 @@ class Record:
             return {((('a', k), 1),): Fraction(1)}
         if op >= 100:
             f = MATH.get(op - 100, 'f%d' % (op - 100))
+            if f in ('pow', 'sqrt'):
+                # power of a single positive monomial with a rational exponent that keeps all exponents integral: stays a (Laurent) monomial
+                Bq = P[b] if f == 'pow' else pconst(Fraction(1, 2))
+                if is_const(Bq) and len(P[a]) == 1:
+                    (ma, ca), = P[a].items(); e = Bq.get((), Fraction(0))
+                    pos = ca > 0 and all(v[0] == 's' and self.syms[v[1]][0] >= 0 for v, _ in ma)
+                    if pos and e.denominator <= 4 and all((ex * e).denominator == 1 for _, ex in ma):
+                        root = None
+                        if e.denominator == 1 and abs(e) <= 64: root = ca ** int(e)
+                        else:
+                            num, den = ca.numerator, ca.denominator
+                            rn, rd = round(num ** (1.0 / e.denominator)), round(den ** (1.0 / e.denominator))
+                            if rn ** e.denominator == num and rd ** e.denominator == den: root = Fraction(rn, rd) ** int(e.numerator)
+                        if root is not None:
+                            return {tuple((v, int(ex * e)) for v, ex in ma): root}
             if f == 'pow':
                 B = P[b]
                 if is_const(B):
@@ -205,10 +220,104 @@ class Record:
                 k = self.atom((f, self.pkey(P[a]), self.pkey(P[b])), f, (P[a], P[b]))
             elif op - 100 >= 100:
                 k = self.atom((f, self.pkey(P[a]), self.pkey(P[b])), 'uf', (f, (P[a], P[b])))
+            elif f in ('cos', 'sin'):
+                # canonical sign of the argument: cos(-a) = cos(a), sin(-a) = -sin(a)
+                Pa = P[a]; lead = sorted(Pa.items())[0][1] if Pa else 0
+                sg = 1
+                if lead < 0: Pa = pscale(Pa, -1); sg = -1 if f == 'sin' else 1
+                k = self.atom((f, self.pkey(Pa)), 'uf', (f, (Pa,)))
+                return {((('a', k), 1),): Fraction(sg)}
             else:
                 k = self.atom((f, self.pkey(P[a])), 'uf', (f, (P[a],)))
             return {((('a', k), 1),): Fraction(1)}
         raise Inconclusive('unknown node op %d' % op)
+
+    # ---- exact differentiation of a normal form with respect to a symbol
+    def pdiff(self, P, var):
+        R = {}
+        for m, c in P.items():
+            for idx, (v, e) in enumerate(m):
+                if v == var:
+                    dv = pconst(Fraction(1))
+                elif v[0] == 'a':
+                    dv = self.atom_diff(v[1], var)
+                    if not dv: continue
+                else:
+                    continue
+                rest = list(m); 
+                if e == 1: rest.pop(idx)
+                else: rest[idx] = (v, e - 1)
+                term = pmul({tuple(rest): c * e}, dv)
+                R = padd(R, term)
+        return R
+
+    def atom_diff(self, k, var):
+        kind, data = self.atoms[k]
+        q = {((('a', k), 1),): Fraction(1)}
+        if kind == 'uf' and data[0] in ('cos', 'sin') and len(data[1]) == 1:
+            Pa = data[1][0]; dPa = self.pdiff(Pa, var)
+            if not dPa: return {}
+            if data[0] == 'cos':
+                ks = self.atom(('sin', self.pkey(Pa)), 'uf', ('sin', (Pa,))); return pmul({((('a', ks), 1),): Fraction(-1)}, dPa)
+            kc = self.atom(('cos', self.pkey(Pa)), 'uf', ('cos', (Pa,))); return pmul({((('a', kc), 1),): Fraction(1)}, dPa)
+        if kind == 'div':
+            num, den = data; dn, dd = self.pdiff(num, var), self.pdiff(den, var)
+            if not dn and not dd: return {}
+            top = padd(dn, pmul(q, dd), -1)
+            if len(den) == 1:
+                (mb, cb), = den.items(); return {mmul(m, mb, -1): c / cb for m, c in top.items()}
+            kk = self.atom(('div', self.pkey(top), self.pkey(den)), 'div', (top, den)); return {((('a', kk), 1),): Fraction(1)}
+        if kind == 'sqrt':
+            da = self.pdiff(data, var)
+            if not da: return {}
+            den = pscale(q, 2); kk = self.atom(('div', self.pkey(da), self.pkey(den)), 'div', (da, den)); return {((('a', kk), 1),): Fraction(1)}
+        # atoms whose argument does not depend on var have zero derivative
+        def depends(Pp):
+            for m in Pp:
+                for v, e in m:
+                    if v == var: return True
+                    if v[0] == 'a' and self.atom_depends(v[1], var): return True
+            return False
+        args = data[1] if kind == 'uf' else (list(data) if isinstance(data, tuple) else [data])
+        if not any(depends(x) for x in args): return {}
+        raise Inconclusive('cannot differentiate atom of kind %s' % kind)
+
+    def atom_depends(self, k, var):
+        kind, data = self.atoms[k]
+        args = data[1] if kind == 'uf' else (list(data) if isinstance(data, tuple) else [data])
+        for Pp in args:
+            for m in Pp:
+                for v, e in m:
+                    if v == var: return True
+                    if v[0] == 'a' and v[1] != k and self.atom_depends(v[1], var): return True
+        return False
+
+    def trig_reduce(self, P):
+        """reduce modulo sin(a)^2 = 1 - cos(a)^2 for every argument a whose cos and sin atoms both occur"""
+        pairs = {}
+        for k, (kind, data) in enumerate(self.atoms):
+            if kind == 'uf' and data[0] in ('cos', 'sin') and len(data[1]) == 1:
+                pairs.setdefault(self.pkey(data[1][0]), {})[data[0]] = k
+        todo = [(d['sin'], d.get('cos')) for d in pairs.values() if 'sin' in d]
+        for ks, kc in todo:
+            vs = ('a', ks)
+            changed = True
+            while changed:
+                changed = False; R = {}
+                for m, c in P.items():
+                    e = dict(m).get(vs, 0)
+                    if e >= 2:
+                        if kc is None:
+                            Pa = self.atoms[ks][1][1][0]; kc = self.atom(('cos', self.pkey(Pa)), 'uf', ('cos', (Pa,)))
+                        changed = True
+                        rest = tuple((v, x) for v, x in m if v != vs) + (((vs, e - 2),) if e > 2 else ())
+                        rest = tuple(sorted(rest))
+                        R = padd(R, {rest: c})
+                        R = padd(R, {mmul(rest, ((('a', kc), 2),)): -c})
+                    else:
+                        R = padd(R, {m: c})
+                P = R
+        return P
 
 
 _ctx_counter = [0]
@@ -293,13 +402,18 @@ class Ctx:
             cs.append(x >= z3.RealVal(str(Fraction(lo)))); cs.append(x <= z3.RealVal(str(Fraction(hi))))
         return cs
 
-    def atom_constraint(self, pred, a, b, res, linear_only=False):
-        """z3 constraint of one recorded comparison / conversion; None if dropped (linear_only and nonlinear)"""
+    def atom_constraint(self, pred, a, b, res, linear_only=False, strict=False):
+        """z3 constraint of one recorded comparison / conversion; None if dropped (linear_only and nonlinear).
+        strict=True gives the topological interior of the class (used for derivative obligations)"""
         rec = self.rec
         if pred >= 100:
             Pa = rec.nf(a)
             if linear_only and not is_affine(Pa): return None
             e = self.term(Pa); v = res
+            if strict:
+                if v > 0: return z3.And(e > v, e < v + 1)
+                if v < 0: return z3.And(e > v - 1, e < v)
+                return z3.And(e > -1, e < 1)
             if v > 0: return z3.And(e >= v, e < v + 1)
             if v < 0: return z3.And(e > v - 1, e <= v)
             return z3.And(e > -1, e < 1)
@@ -311,17 +425,21 @@ class Ctx:
         p = pred if pred < 8 else pred - 8   # ordered / unordered variants coincide without NaN
         if pred == 15: c = z3.BoolVal(True)
         elif pred == 0: c = z3.BoolVal(False)
+        elif strict:
+            if res: c = {1: z3.BoolVal(False), 2: e > 0, 3: e > 0, 4: e < 0, 5: e < 0, 6: e != 0}[p]
+            else:   c = {1: e != 0, 2: e < 0, 3: e < 0, 4: e > 0, 5: e > 0, 6: z3.BoolVal(False)}[p]
+            return c
         else:
             c = {1: e == 0, 2: e > 0, 3: e >= 0, 4: e < 0, 5: e <= 0, 6: e != 0}[p]
         return c if res else z3.Not(c)
 
-    def pc(self, linear_only=False, upto=None):
+    def pc(self, linear_only=False, upto=None, strict=False):
         cs = []; seen = set()
         for k, (pred, a, b, res) in enumerate(self.rec.pc):
             if upto is not None and k >= upto: break
             if (pred, a, b, res) in seen: continue
             seen.add((pred, a, b, res))
-            c = self.atom_constraint(pred, a, b, res, linear_only)
+            c = self.atom_constraint(pred, a, b, res, linear_only, strict)
             if c is not None: cs.append(c)
         return cs
 
@@ -339,8 +457,12 @@ def hull_monomial(m, rec):
     """interval hull of a monomial over the symbol box (None if unbounded / involves atoms)"""
     lo, hi = Fraction(1), Fraction(1)
     for v, e in m:
-        if v[0] != 's': return None
-        a, b = Fraction(rec.syms[v[1]][0]), Fraction(rec.syms[v[1]][1])
+        if v[0] != 's':
+            kind, data = rec.atoms[v[1]]
+            if kind == 'uf' and data[0] in ('cos', 'sin'): a, b = Fraction(-1), Fraction(1)     # bounded atoms
+            else: return None
+        else:
+            a, b = Fraction(rec.syms[v[1]][0]), Fraction(rec.syms[v[1]][1])
         if e < 0:
             if a <= 0 <= b: return None
             a, b = 1 / b, 1 / a; e = -e
@@ -361,13 +483,19 @@ class Decider:
         self.rec = rec; self.tol = tol; self.timeout_ms = timeout_ms
         self.ctx = Ctx(rec, shared_vars)
         self.stats = {'queries': 0, 'solver_s': 0.0, 'lra': 0, 'relax': 0, 'nra': 0, 'zero_residual': 0}
-        self._pc_lin = None; self._pc_full = None
+        self._pc_lin = None; self._pc_full = None; self._pc_lin_s = None; self._pc_full_s = None; self.strict = False
 
     def pc_lin(self):
+        if self.strict:
+            if self._pc_lin_s is None: self._pc_lin_s = self.ctx.pc(linear_only=True, strict=True)
+            return self._pc_lin_s
         if self._pc_lin is None: self._pc_lin = self.ctx.pc(linear_only=True)
         return self._pc_lin
 
     def pc_full(self):
+        if self.strict:
+            if self._pc_full_s is None: self._pc_full_s = self.ctx.pc(linear_only=False, strict=True)
+            return self._pc_full_s
         if self._pc_full is None: self._pc_full = self.ctx.pc(linear_only=False)
         return self._pc_full
 
@@ -407,18 +535,27 @@ class Decider:
         kind, a, b, va, vb = o[0], o[1], o[2], float.fromhex(o[3]), float.fromhex(o[4])
         Pa = self.rec.nf(a) if a else pconst(Fraction(va))
         Pb = self.rec.nf(b) if b else pconst(Fraction(vb))
-        return padd(Pa, Pb, -1)
+        if kind == 4:
+            Pb = self.rec.pdiff(Pb, ('s', o[7]))
+        R = padd(Pa, Pb, -1)
+        if any(v[0] == 'a' for v in pvars(R)): R = self.rec.trig_reduce(R)
+        return R
 
     def decide(self, o):
         """returns dict(verdict = 'holds' | 'violated' | 'inconclusive', method, model inputs...)"""
         kind, a, b = o[0], o[1], o[2]
         va, vb, scale = float.fromhex(o[3]), float.fromhex(o[4]), float.fromhex(o[5])
         label = o[6]
-        res = {'label': label, 'kind': ['eq', 'le', 'ident', 'nonconst'][kind], 'symbolic': bool(a or b)}
+        res = {'label': label, 'kind': ['eq', 'le', 'ident', 'nonconst', 'deriv'][kind], 'symbolic': bool(a or b)}
+        self.strict = (kind == 4)   # derivative obligations are claimed on the interior of the class (points where the surrogate is smooth)
         try:
             R = self.residual(o)
         except TooBig as e:
             res.update(verdict='inconclusive', method='normal form too big: %s' % e); return res
+        except NonFinite:
+            raise
+        except Inconclusive as e:
+            res.update(verdict='inconclusive', method=str(e)); return res
         res['monomials'] = len(R); res['degree'] = pdegree(R)
         ctx = self.ctx
         if kind == 3:   # vacuity witness: value depends on symbols
@@ -436,7 +573,7 @@ class Decider:
             bad = lambda e: e != 0
         else:
             bad = lambda e: z3.Or(e > z3.RealVal(str(t)), e < -z3.RealVal(str(t)))
-        atoms_used = any(v[0] == 'a' for v in pvars(R))
+        atoms_used = any(v[0] == 'a' and not (self.rec.atoms[v[1]][0] == 'uf' and self.rec.atoms[v[1]][1][0] in ('cos', 'sin')) for v in pvars(R))
         if is_affine(R):
             self.stats['lra'] += 1
             r, s = self._check(ctx.box() + self.pc_lin() + [bad(ctx.term(R))])
@@ -461,7 +598,7 @@ class Decider:
                 ts = []; cs = []
                 for k, (m, c) in enumerate(R.items()):
                     if m == (): ts.append(z3.RealVal(str(c)))
-                    elif len(m) == 1 and m[0][1] == 1: ts.append(z3.RealVal(str(c)) * ctx.sym(m[0][0][1]))
+                    elif len(m) == 1 and m[0][1] == 1 and m[0][0][0] == 's': ts.append(z3.RealVal(str(c)) * ctx.sym(m[0][0][1]))
                     else:
                         w = z3.Real('w%d' % k); lo, hi = hulls[m]
                         cs += [w >= z3.RealVal(str(lo)), w <= z3.RealVal(str(hi))]; ts.append(z3.RealVal(str(c)) * w)
